@@ -51,6 +51,7 @@ THEOREMS = [
     "header_record_roundtrip_antenna", "header_record_roundtrip_approx_position", "header_record_roundtrip_antenna_delta",
     "header_record_roundtrip_interval", "header_record_roundtrip_comment", "header_record_roundtrip_time_of_last_obs",
     "header_records_any_order", "body_comment_line_ignored_v3", "body_comment_line_ignored_v2", "blank_system_id_is_gps_partial",
+    "century_file_spec", "c11_century_from_first_obs_refuted",
 ]
 
 REQ = "From Verif Require Import Lib.Dyadic Model.C11_Rinex Model.C11_Check."
@@ -186,6 +187,14 @@ def has_blank_obs_line(f):
                 if all(c["v"] is None for c in cs[k:k + 5]):
                     return True
     return False
+
+
+def century_class(f):
+    """class K of the finding c11_v2_century_from_first_obs: RINEX 2 file with an epoch record in another century than TIME OF FIRST OBS"""
+    if f.get("version") != 2 or "lines" in f:
+        return False
+    c0 = f["hdr"]["first"][0] // 100
+    return any(e["t"][0] // 100 != c0 for e in f["epochs"])
 
 
 def decimal_rate(sampling):
@@ -372,6 +381,11 @@ def run(ctx):
                 ctx.finding("c11_blank_continuation_dropped",
                             "rinex2_obs drops an all-blank observation line (label lambda: ''.isspace() is False), so with more than "
                             "five observation types the values of the following satellites shift and the epoch loses rows", rep)
+            elif v == 4 and century_class(models[rep["name"]]):
+                ctx.count("quirk:century_from_first_obs")
+                ctx.finding("c11_v2_century_from_first_obs",
+                            "rinex2_obs takes the century of the two-digit year of an epoch record from TIME OF FIRST OBS: in a session over "
+                            "1999/2000 the records '00  1  1 ...' come back as 1900-01-01", rep)
             elif v == 3:
                 ctx.violation(rep, what="per-record columns returned by the parser have different lengths")
             elif v == 1 and decimal_rate(rep["sampling"]) and only_grid_epochs_dropped(ctx, models[rep["name"]], obs_terms[rep["name"]]):
